@@ -128,31 +128,52 @@ func (c *Ctx) initCallsUnconditionally(callee *ssa.Function) bool {
 }
 
 func storesGlobal(fn *ssa.Function, global string) bool {
+	rootOf := func(v ssa.Value) ssa.Value {
+		for i := 0; i < 8; i++ {
+			switch x := v.(type) {
+			case *ssa.IndexAddr:
+				v = x.X
+				continue
+			case *ssa.FieldAddr:
+				v = x.X
+				continue
+			case *ssa.UnOp:
+				if x.Op == token.MUL {
+					v = x.X
+					continue
+				}
+			}
+			break
+		}
+		return v
+	}
 	for _, b := range fn.Blocks {
 		for _, ins := range b.Instrs {
-			st, ok := ins.(*ssa.Store)
-			if !ok {
-				continue
-			}
-			v := st.Addr
-			for i := 0; i < 8; i++ {
-				switch x := v.(type) {
-				case *ssa.IndexAddr:
-					v = x.X
+			switch x := ins.(type) {
+			case *ssa.Store:
+				if g, ok := rootOf(x.Addr).(*ssa.Global); ok && g.Name() == global {
+					return true
+				}
+			case *ssa.Call:
+				// the generator hands the table's address to a fill helper that stores through it
+				// (fillTable(&Tbl0, source))
+				callee := x.Call.StaticCallee()
+				if callee == nil || callee.Blocks == nil || len(x.Call.Args) != len(callee.Params) {
 					continue
-				case *ssa.FieldAddr:
-					v = x.X
-					continue
-				case *ssa.UnOp:
-					if x.Op == token.MUL {
-						v = x.X
+				}
+				for k, a := range x.Call.Args {
+					g, ok := a.(*ssa.Global)
+					if !ok || g.Name() != global {
 						continue
 					}
+					for _, cb := range callee.Blocks {
+						for _, ci := range cb.Instrs {
+							if st, ok := ci.(*ssa.Store); ok && rootOf(st.Addr) == ssa.Value(callee.Params[k]) {
+								return true
+							}
+						}
+					}
 				}
-				break
-			}
-			if g, ok := v.(*ssa.Global); ok && g.Name() == global {
-				return true
 			}
 		}
 	}
